@@ -37,6 +37,18 @@ def guards (m field : String) : Bool :=
   let suf := stem.toList ++ "Mtx".toList
   (m.toList.reverse.take suf.length).reverse == suf
 
+/-- `pivots.Parent.JobQueue` ↦ (`pivots.Parent`, `JobQueue`): the object an expression selects from, and the field -/
+def splitLast (e : String) : String × String :=
+  let cs := e.toList.reverse
+  let fld := (cs.takeWhile (· != '.')).reverse
+  let rcv := ((cs.dropWhile (· != '.')).drop 1).reverse
+  (String.ofList rcv, String.ofList fld)
+
+/-- the held mutex `m` guards the table expression `e`: it is that table's mutex AND it belongs to the same object
+    (`a.JobMtx` does not guard `pivots.Parent.JobQueue`) -/
+def guardsExpr (m e : String) : Bool :=
+  guards m (splitLast e).2 && (splitLast m).1 == (splitLast e).1
+
 structure AccessScan where
   held : List String := []
   bad : List String := []
@@ -44,7 +56,7 @@ structure AccessScan where
 def accessStep (s : AccessScan) : Ev → AccessScan
   | .lock m | .trylock m => { s with held := m :: s.held }
   | .unlock m => { s with held := s.held.erase m }
-  | .access f => if s.held.any (guards · f) then s else { s with bad := f :: s.bad }
+  | .access e => if s.held.any (guardsExpr · e) then s else { s with bad := (splitLast e).2 :: s.bad }
   | _ => s
 
 /-- table accesses of a function that happen while the table's mutex is not held -/
